@@ -27,7 +27,7 @@ RULE = ("interfaces over int/float/str/bool, Optional[scalar], Literal[str..], L
         "literal defaults (class matrix + seeded random); each emitted as class, pydantic-shaped class, function "
         "(type_annotations x kw-only) and argparse function in 3 docstring styles, then compiled and executed; a case "
         "= (interface, emitter, options); distinct by content digest; non-trivial = at least one parameter")
-REQUIRED_MONITORS = ("exec.class", "exec.pydantic", "exec.function", "exec.argparse", "argparse.parse_args",
+REQUIRED_MONITORS = ("exec.class", "exec.pydantic", "exec.function", "exec.argparse", "argparse.parse_args", "function.receiver.checked",
                      "unparse.reparse")
 ASSUMPTIONS = [
     "emitting required=True together with a default is what the README documents; not treated as a deviation",
@@ -150,9 +150,18 @@ def check_function(P, ctxd, fmt, cfg, ir, ns, src):
         return dev(P, ctxd, fmt, cfg, "symbol", "missing", "-", "-", "function %s not defined" % ir["name"], src)
     sig = inspect.signature(f)
     names = list(ir["params"])
-    if list(sig.parameters) != names:
-        return dev(P, ctxd, fmt, cfg, "names", "differ", "-", "-", "signature %r != %r" % (list(sig.parameters), names),
-                   src)
+    # a method / classmethod-shaped function leads with its receiver (function_type, else the description's "type")
+    ftype = cfg.get("function_type") or cfg.get("ir_type") or "static"
+    receiver = [] if ftype == "static" else [ftype]
+    if list(sig.parameters) != receiver + names:
+        return dev(P, ctxd, fmt, cfg, "names", "differ", "-", "-", "signature %r != %r" % (
+            list(sig.parameters), receiver + names), src)
+    for rn in receiver:
+        P.monitor("function.receiver.checked")
+        sp = sig.parameters[rn]
+        if sp.kind != inspect.Parameter.POSITIONAL_OR_KEYWORD or sp.default is not inspect.Parameter.empty:
+            dev(P, ctxd, fmt, cfg, "receiver", "differs", "-", "-", "%s kind %s default %r" % (rn, sp.kind, sp.default),
+                src)
     want_kind = inspect.Parameter.KEYWORD_ONLY if cfg["emit_as_kwonlyargs"] else inspect.Parameter.POSITIONAL_OR_KEYWORD
     for name, p in ir["params"].items():
         tk, dk = irgen.type_kind_of(p.get("typ")), irgen.default_kind_of(p)
@@ -279,15 +288,26 @@ def configs():
             yield "function", {"docstring_format": style, "type_annotations": ta, "emit_as_kwonlyargs": kw}
 
 
+# (function_type argument, "type" of the description used when the argument is None)
+FUNCTION_TYPES = (("static", None), ("self", None), ("cls", None), (None, "static"), (None, "self"), (None, "cls"))
+
+
 def run_case(ctx, P, stream, idx):
-    ir = gen_case(ctx, stream, idx)
-    sh = irgen.shape(ir)
-    ctxd = {"stream": stream, "idx": idx, "ir": ir}
-    for fmt, cfg in configs():
+    ir0 = gen_case(ctx, stream, idx)
+    sh = irgen.shape(ir0)
+    for n, (fmt, cfg) in enumerate(configs()):
+        ir = ir0
+        if fmt == "function":
+            ft, ir_type = FUNCTION_TYPES[(idx + n) % len(FUNCTION_TYPES)]
+            cfg = dict(cfg, function_type=ft)
+            if ir_type is not None:
+                ir = dict(deepcopy(ir0), type=ir_type)
+                cfg["ir_type"] = ir_type
+        ctxd = {"stream": stream, "idx": idx, "ir": ir}
         P.case({"ir": ir, "fmt": fmt, "cfg": cfg}, nontrivial=bool(ir["params"]), klass="%s/%s" % (stream, fmt),
                sample={"format": fmt, "options": cfg, "shape": sh, "ir": ir})
         try:
-            node, src = hops.emit(ir, fmt, **cfg)
+            node, src = hops.emit(ir, fmt, **{k: v for k, v in cfg.items() if k != "ir_type"})
         except Exception as e:
             dev(P, ctxd, fmt, cfg, "emit", "raises:" + type(e).__name__, "-", "-", repr(e)[:200], None)
             continue
